@@ -1789,6 +1789,8 @@ def describe_result(hist: History, case):
         if i in hist.excluded_tx or i - 1 not in hist.pcores or i not in hist.pcores:
             continue
         reps = [r for r, t in zip(hist.reports, hist.tx_of_wire) if t == i]
+        if not reps:
+            continue      # no report: nothing to describe; the mirror oracle demands an unchanged provider content
         toks = enc_core(*hist.pcore_before.get(i, hist.pcores[i - 1])) + enc_core(*hist.pcores[i]) + [len(reps)]
         for r in reps:
             toks += [int(x) for x in r.line().split(' ')[1:]]
